@@ -42,7 +42,7 @@ func (c *sigCtx) walk(v ssa.Value, env map[*ssa.Parameter]ssa.Value, fn *ssa.Fun
 		return
 	}
 	// context-sensitive: the same helper body is walked once per binding of its parameters
-	sk := fmt.Sprintf("%p|%p", v, env)
+	sk := fmt.Sprintf("%p|%p|%d", v, env, c.lift)
 	if c.seen[sk] {
 		return
 	}
@@ -56,25 +56,32 @@ func (c *sigCtx) walk(v ssa.Value, env map[*ssa.Parameter]ssa.Value, fn *ssa.Fun
 		}
 	case *ssa.Parameter:
 		if a, ok := env[x]; ok {
-			c.walk(a, nil, nil, depth+1)
+			c.walk(a, nil, parentOf(a), depth+1)
 			return
 		}
-		// lift through a single caller
+		// lift through the callers (the union over all static call sites when there are several: a helper shared by
+		// two formulas has, lifted, the sources of both)
 		if fn != nil && c.w != nil && c.lift > 0 {
-			if callers := c.w.CG().Callers[x.Parent()]; len(callers) == 1 && !callers[0].Common().IsInvoke() {
+			callers := c.w.CG().Callers[x.Parent()]
+			idx := -1
+			for i, p := range x.Parent().Params {
+				if p == x {
+					idx = i
+				}
+			}
+			all := len(callers) > 0 && len(callers) <= 4 && idx >= 0 && depth < 10
+			for _, cs := range callers {
+				if cs.Common().IsInvoke() || cs.Static != x.Parent() || idx >= len(cs.Common().Args) {
+					all = false
+				}
+			}
+			if all {
 				c.lift--
 				defer func() { c.lift++ }()
-				idx := -1
-				for i, p := range x.Parent().Params {
-					if p == x {
-						idx = i
-					}
+				for _, cs := range callers {
+					c.walk(cs.Common().Args[idx], nil, cs.Caller, depth+1)
 				}
-				args := callers[0].Common().Args
-				if idx >= 0 && idx < len(args) && depth < 10 {
-					c.walk(args[idx], nil, callers[0].Caller, depth+1)
-					return
-				}
+				return
 			}
 		}
 		c.leaves["<"+shortType(x.Type())+">"] = true
@@ -82,6 +89,22 @@ func (c *sigCtx) walk(v ssa.Value, env map[*ssa.Parameter]ssa.Value, fn *ssa.Fun
 		if x.Op == token.MUL {
 			if fa, ok := x.X.(*ssa.FieldAddr); ok {
 				T, f := fieldOf(fa)
+				// a field of an unexported helper struct of the module (values grouped to travel between the functions of
+				// a routine): what is stored into it, wherever
+				if T != nil && c.w != nil && !T.Obj().Exported() && T.Obj().Pkg() != nil && strings.HasPrefix(T.Obj().Pkg().Path(), modPath) && depth < 8 {
+					n := 0
+					for _, g := range c.w.ProdFuncs() {
+						for _, fs := range FieldStores(g) {
+							if fs.Struct == T && fs.Field == f {
+								n++
+								c.walk(fs.Store.Val, nil, g, depth+1)
+							}
+						}
+					}
+					if n > 0 {
+						return
+					}
+				}
 				if T != nil {
 					c.leaves[T.Obj().Name()+"."+f] = true
 					return
